@@ -22,9 +22,9 @@ func Tick() int64 { return atomic.AddInt64(&lseq, 1) }
 // Event is one record of a history (see DESIGN.md appendix B).
 type Event struct {
 	L       int64  `json:"l"`
-	Src     string `json:"src"`           // client | backend | hook | harness
-	K       string `json:"k"`             // send | recv | reply | kill | hook point ...
-	Cl      int    `json:"cl,omitempty"`  // client id
+	Src     string `json:"src"`          // client | backend | hook | harness
+	K       string `json:"k"`            // send | recv | reply | kill | hook point ...
+	Cl      int    `json:"cl,omitempty"` // client id
 	Host    int    `json:"host,omitempty"`
 	Conn    int    `json:"conn,omitempty"`
 	Ver     int    `json:"ver,omitempty"`
@@ -97,19 +97,19 @@ type Violation struct {
 
 // Result accumulates what one run (or one shard of it) observed.
 type Result struct {
-	Property     string              `json:"property"`
-	Evaluations  int                 `json:"evaluations"`
-	Distinct     map[string]struct{} `json:"-"`
-	DistinctKeys []string            `json:"distinct_keys,omitempty"`
-	Samples      []interface{}       `json:"samples"`
-	Observed     map[string]int      `json:"observed"`
-	Violations   []Violation         `json:"violations"`
-	Inconclusive []string            `json:"inconclusive"`
-	Assumptions  []string            `json:"assumptions"`
-	Required     []string            `json:"required"` // observed keys that must be > 0 or the check is broken
+	Property     string                 `json:"property"`
+	Evaluations  int                    `json:"evaluations"`
+	Distinct     map[string]struct{}    `json:"-"`
+	DistinctKeys []string               `json:"distinct_keys,omitempty"`
+	Samples      []interface{}          `json:"samples"`
+	Observed     map[string]int         `json:"observed"`
+	Violations   []Violation            `json:"violations"`
+	Inconclusive []string               `json:"inconclusive"`
+	Assumptions  []string               `json:"assumptions"`
+	Required     []string               `json:"required"` // observed keys that must be > 0 or the check is broken
 	Extra        map[string]interface{} `json:"extra,omitempty"`
-	Exhaustive   bool                `json:"exhaustive,omitempty"`
-	Broken       []string            `json:"broken,omitempty"` // the check itself is broken (harness bug): exit 2
+	Exhaustive   bool                   `json:"exhaustive,omitempty"`
+	Broken       []string               `json:"broken,omitempty"` // the check itself is broken (harness bug): exit 2
 	mu           sync.Mutex
 }
 
@@ -207,7 +207,11 @@ func (r *Result) Assume(s string) {
 	r.mu.Unlock()
 }
 
-func (r *Result) Require(keys ...string) { r.mu.Lock(); r.Required = append(r.Required, keys...); r.mu.Unlock() }
+func (r *Result) Require(keys ...string) {
+	r.mu.Lock()
+	r.Required = append(r.Required, keys...)
+	r.mu.Unlock()
+}
 
 // Merge folds a shard result into r.
 func (r *Result) Merge(o *Result) {
